@@ -91,6 +91,11 @@ def alphabet(seed, tier):
     add(3, ["textB", "textB"], 0)
     add(3, ["hexA", "textA"], 1)
     add(3, ["j9P.Q", "clearP"], 0)
+    # feedback: the secret of this line is the replacement that another secret received earlier in
+    # this history (netconan run over a mix of raw and already anonymized files)
+    for lab in ("textA", "textB"):
+        lines.append({"text": None, "feedback": byl[lab][2], "tmpl": FORMS[0][0], "pos": FORMS[0][1], "ids": None,
+                      "q": 0, "form": 0, "labels": ["fb:" + lab]})
     if tier == "quick":
         return lines
     for lab in ("hexB", "md5B", "j9Q", "j9P.k"):
@@ -128,6 +133,11 @@ def canon_repl(r):
 
 
 def apply_line(node, line):
+    if line.get("feedback") is not None:
+        prev = node.ghost.get(line["feedback"])
+        if prev is None:
+            return None, []          # nothing to feed back yet: the line is not enabled
+        line = dict(line, text=line["tmpl"].format(prev), ids=[prev])
     buf = io.StringIO()
     with seams.capture_logs():
         node.fa.anonymize_io(io.StringIO(line["text"] + "\n"), buf)
@@ -143,9 +153,12 @@ def make_graph(salt, lines, depth):
     def apply(node, li):
         line = lines[li]
         out, reps = apply_line(node, line)
+        if out is None:
+            return ("<not-enabled>", ())
         node.last = (out, reps)
         obs = []
-        for ident, r in zip(line["ids"], reps):
+        ids = line["ids"] if line.get("feedback") is None else [node.ghost.get(line["feedback"])]
+        for ident, r in zip(ids, reps):
             c = None if r is None else canon_repl(r)
             # "j9:X" and "t:X" are the same pseudonym X in two encodings
             obs.append((ident, c))
@@ -157,6 +170,8 @@ def make_graph(salt, lines, depth):
         if isinstance(o, tuple) and o and o[0] == "exception":
             return [("exception:" + o[1], "line %r raised %r" % (lines[li]["text"], o))]
         out, obs = o
+        if out == "<not-enabled>":
+            return []
         bad = []
         ghost = dict(before.ghost)
         for ident, c in obs:
@@ -172,14 +187,14 @@ def make_graph(salt, lines, depth):
                 if ghost[ident] != name:
                     bad.append(("equal-secrets-different-replacements",
                                 "after %r the secret %r got %r, earlier %r (line %r -> %r)" % (
-                                    [lines[i]["text"] for i in hist[:-1]], ident, name, ghost[ident],
-                                    lines[li]["text"], out)))
+                                    [lines[i]["text"] or "<feedback>" for i in hist[:-1]], ident, name, ghost[ident],
+                                    lines[li]["text"] or "<feedback>", out)))
             else:
                 if name in ghost.values():
                     other = [k for k, v in ghost.items() if v == name]
                     bad.append(("different-secrets-same-replacement",
                                 "after %r the new secret %r got %r which %r already has" % (
-                                    [lines[i]["text"] for i in hist[:-1]], ident, name, other)))
+                                    [lines[i]["text"] or "<feedback>" for i in hist[:-1]], ident, name, other)))
                 ghost[ident] = name
         return bad
 
@@ -246,9 +261,9 @@ class HistoryPart(Part):
         for sig, msg, hist in g.violations:
             res.violation(sig, msg, {"salt": case["salt"], "hist": [first] + list(hist)})
         deepest = max(g.witness.values(), key=len) if g.witness else ()
-        res.samples.append({"salt": case["salt"], "first_line": lines[first]["text"],
+        res.samples.append({"salt": case["salt"], "first_line": lines[first]["text"] or "<feedback>",
                             "states": g.states, "transitions": g.transitions,
-                            "a_deepest_history": [lines[i]["text"] for i in (first,) + tuple(deepest)]})
+                            "a_deepest_history": [lines[i]["text"] or "<feedback>" for i in (first,) + tuple(deepest)]})
         return res
 
 
